@@ -66,6 +66,28 @@ int main() {
     close(pfd[1]); long n = 0; ssize_t r = read(pfd[0], &n, sizeof n); (void)r; close(pfd[0]); int st; waitpid(pid, &st, 0); total += n;
     if (!WIFEXITED(st) || WEXITSTATUS(st) != 0) printf("BAD evaluators on %s: process terminated (wait status %d)\n", sol.c_str(), st);
   }
+  // handles are used verbatim by the C interface too: odd spellings registered through C must be listed, selectable through both
+  // views and distinct from their trimmed / case-folded twins registered through C++
+  {
+    int pfd[2]; if (pipe(pfd)) return 2; fflush(stdout); pid_t pid = fork();
+    if (pid == 0) { close(pfd[0]); long n = 0;
+      const char* odd[] = {"run ", " run", "Run", "r-u n", "run--", "run  ", "", "run\t"};
+      capture([] { masa_init<double>("run", "heateq_1d_steady_const"); masa_set_param<double>("A_x", 7.25); });
+      for (const char* h : odd) {
+        capture([&] { masa_init(h, "euler_1d"); }); n++;
+        std::string nm; masa_get_name<double>(&nm); std::string l = capture([] { masa_list_mms<double>(); });
+        if (nm != "euler_1d" || l.find(std::string(h) + " : euler_1d") == std::string::npos) printf("BAD C masa_init(\"%s\", euler_1d): handle not registered verbatim (selected=%s)\n", h, nm.c_str());
+        capture([] { masa_select_mms<double>("run"); }); masa_get_name<double>(&nm); double ax = masa_get_param<double>("A_x"); n++;
+        if (nm != "heateq_1d_steady_const" || ax != 7.25) printf("BAD C masa_init(\"%s\", ...) disturbed the distinct handle \"run\" (now %s, A_x=%g)\n", h, nm.c_str(), ax);
+        capture([&] { masa_select_mms(h); }); masa_get_name<double>(&nm); n++;
+        if (nm != "euler_1d") printf("BAD C masa_select_mms(\"%s\") selected %s\n", h, nm.c_str());
+        capture([&] { masa_select_mms<double>(std::string(h)); }); masa_get_name<double>(&nm); n++;
+        if (nm != "euler_1d") printf("BAD masa_select_mms<double>(\"%s\") after C init selected %s\n", h, nm.c_str());
+      }
+      fflush(stdout); ssize_t w = write(pfd[1], &n, sizeof n); (void)w; unlink(g_cap.c_str()); _exit(0); }
+    close(pfd[1]); long n = 0; ssize_t r = read(pfd[0], &n, sizeof n); (void)r; close(pfd[0]); int st; waitpid(pid, &st, 0); total += n;
+    if (!WIFEXITED(st) || WEXITSTATUS(st) != 0) printf("BAD odd handles through the C interface: process terminated (wait status %d)\n", st);
+  }
   // status-returning wrappers on the self-test fixture, the one catalogue entry whose init_var reports a non-zero status
   {
     int pfd[2]; if (pipe(pfd)) return 2; fflush(stdout); pid_t pid = fork();
